@@ -236,4 +236,76 @@ def badPoints (sc : Scenario) : List (Nat × Verdict Gen) :=
   ((crashStates sc.fs0 sc.trace).zipIdx.filterMap
     (fun (s, i) => let v := recover s; if acceptable sc.cmd sc.coredataOnly v then none else some (i, v)))
 
+/-! ### leftover bytes: temp files must be opened truncating
+
+A killed run may leave any file behind at a path that a clean directory does not have (`build.ninja~`,
+`coredata.dat~`, `cmd_line.txt~`, `meson-info/tmp_dump.json`, `conf.h~`).  The next run re-uses these names.
+`stale p` = "`p` may still hold bytes that this run did not put there". -/
+
+abbrev Stale := Path → Bool
+
+def Stale.set (st : Stale) (p : Path) (b : Bool) : Stale := fun q => if q = p then b else st q
+
+/-- how each effect changes which files may hold leftover bytes: `open(p,'w')` truncates, `open(p,'a')` does not,
+    a rename/copy carries the source's bytes (copyfile truncates its destination first), unlink removes them -/
+def staleStep {α} (st : Stale) : Effect α → Stale
+  | .openW p => st.set p false
+  | .replace s d => (st.set d (st s)).set s false
+  | .copyfile s d => st.set d (st s)
+  | .unlink p => st.set p false
+  | .rmdir p => st.set p false
+  | _ => st
+
+/-- every file renamed into place was produced by this run from scratch: no `os.replace` source may hold
+    leftover bytes -/
+def replacesFresh {α} : Stale → List (Effect α) → Bool
+  | _, [] => true
+  | st, .replace s d :: es => !st s && replacesFresh (staleStep st (.replace s d : Effect α)) es
+  | st, e :: es => replacesFresh (staleStep st e) es
+
+/-- the worst directory a killed run can have left for a scenario: every path that the clean pre-command
+    directory does not have may exist and hold anything -/
+def Scenario.stale0 (sc : Scenario) : Stale := fun p =>
+  match sc.fs0 p with
+  | .absent => true
+  | _ => false
+
+/-! #### the same at the level of bytes, for the temp-file protocol of build.ninja (ninjabackend.py:709-776) -/
+
+/-- file contents as lists of chunks -/
+abbrev CFS (β : Type) := Path → Option (List β)
+
+def CFS.set {β} (fs : CFS β) (p : Path) (c : Option (List β)) : CFS β := fun q => if q = p then c else fs q
+
+inductive CEffect (β : Type) where
+  | openTrunc (p : Path)             -- open(p, 'w')
+  | openAppend (p : Path)            -- open(p, 'a')
+  | write (p : Path) (d : List β)    -- data appended at the end of the file
+  | replace (src dst : Path)
+
+def cstep {β} (fs : CFS β) : CEffect β → CFS β
+  | .openTrunc p => fs.set p (some [])
+  | .openAppend p => match fs p with
+      | none => fs.set p (some [])
+      | some _ => fs
+  | .write p d => match fs p with
+      | none => fs
+      | some c => fs.set p (some (c ++ d))
+  | .replace s d => match fs s with
+      | none => fs
+      | some c => (fs.set d (some c)).set s none
+
+def crun {β} (fs : CFS β) : List (CEffect β) → CFS β
+  | [] => fs
+  | e :: es => crun (cstep fs e) es
+
+/-- `NinjaBackend.generate`: `open(tmp,'w')` + preamble, re-open in append mode (detect_vs_dep_prefix) + body,
+    `os.replace(tmp, build.ninja)` -/
+def ninjaTempTruncating {β} (tmp dst : Path) (pre body : List β) : List (CEffect β) :=
+  [.openTrunc tmp, .write tmp pre, .openAppend tmp, .write tmp body, .replace tmp dst]
+
+/-- the same without the truncating open: everything goes through append-mode handles -/
+def ninjaTempAppending {β} (tmp dst : Path) (pre body : List β) : List (CEffect β) :=
+  [.openAppend tmp, .write tmp pre, .openAppend tmp, .write tmp body, .replace tmp dst]
+
 end MesonModel.Crash
